@@ -1,6 +1,6 @@
 ------------------------------- MODULE IsaPic16 -------------------------------
-(* Microchip PIC16C84 (mid-range core, 14-bit instruction words), written from the PIC16C8X data sheet *)
-(* "Instruction Set Summary" table:                                                                   *)
+(* Microchip PIC16C8x family (mid-range core, 14-bit instruction words), written from the PIC16C8X / PIC16F87X    *)
+(* data sheets, "Instruction Set Summary" table:                                                       *)
 (*   byte-oriented file register operations   00 oooo dfff ffff   (d = 0: W, d = 1: f)                 *)
 (*   bit-oriented file register operations    01 oobb bfff ffff                                       *)
 (*   literal operations                       11 oooo kkkk kkkk                                       *)
@@ -9,24 +9,38 @@
 (* One unit = one 14-bit program word (stored in a 16-bit cell of the code file, granularity 2).      *)
 (* f is the 7-bit register-file address inside the selected bank: 0..127 must be accepted; data       *)
 (* addresses 128..511 (other banks, bank selection is the programmer's business) are convention zone:  *)
-(* if accepted, the low 7 bits are encoded.  The 16C84 has 1 K words of program memory: GOTO/CALL      *)
-(* targets 0..1023 must be accepted, 1024..2047 fit the 11-bit field but lie outside the device        *)
-(* (convention zone), larger targets cannot be encoded in one instruction.                            *)
+(* if accepted, the low 7 bits are encoded.                                                           *)
+(* DEVICE dimension (TLA+ Cpu constant = argument of the CPU statement).  The members of the family differ in  *)
+(* the size of the program memory, i.e. in the range of CALL / GOTO and in the number of 2 K PAGES the 11-bit   *)
+(* address field k selects inside of (the upper bits of the destination come from PCLATH<4:3>):                *)
+(*   16C84 1 K words, 16C64 2 K (one page each), 16C873 / 16C874 4 K (2 pages), 16C876 / 16C877 8 K (4 pages). *)
+(* Single-page devices: GOTO / CALL targets 0..size-1 must be accepted, size..2047 fit the 11-bit field but lie   *)
+(* outside the device (convention zone), larger targets cannot be encoded.                                 *)
+(* Devices with more than one page: the forms "CALL p0" / "GOTO p0" of THIS table describe the instruction for  *)
+(* a statement that stands in page 0 and a target in page 0 (one word, k = target); the case generator places   *)
+(* every statement without PC-dependent operand in the first 2 K words.  Targets in another page are the        *)
+(* business of IsaPic16P.tla (statement page x target page x device: the BCF / BSF PCLATH prefix AS documents)  *)
+(* and are skipped here (Skipped).                                                                         *)
 (* Not judged (assembler conveniences, not part of the instruction set): omitted destination operand,  *)
-(* OPTION/TRIS (obsolete), BANKSEL, automatic PCLATH fix-up of the bigger family members.              *)
+(* OPTION/TRIS (obsolete), BANKSEL.                                                                   *)
 EXTENDS IsaCommon
 
-AddrMax == 1023
 UnitBits == 14
 BranchPCs == {0}
+PageSize == 2048
 
-All == {"16C84"}
+\* program memory pages (2 K words each; the 16C84 has half a page)
+Single == {"16C84", "16C64"}
+Paged == {"16C873", "16C874", "16C876", "16C877"}
+All == Single \cup Paged
+PagesOf(cpu) == CASE cpu \in {"16C873", "16C874"} -> 2 [] cpu \in {"16C876", "16C877"} -> 4 [] OTHER -> 1
+AddrMaxOf(cpu) == IF cpu = "16C84" THEN 1023 ELSE PagesOf(cpu) * PageSize - 1
 
 FReg == FNum(0, 127, 0, 511, 7, FALSE)
 Dest == FEnum(<< <<"W",0>>, <<"F",1>>, <<"0",0>>, <<"1",1>> >>, 1)
 Lit8 == FUns(8)
 BitNo == FAddr(3)
-Prog == FNum(0, 1023, 0, 2047, 11, FALSE)
+Prog(cpu) == FNum(0, IF cpu \in Paged THEN PageSize - 1 ELSE AddrMaxOf(cpu), 0, PageSize - 1, 11, FALSE)
 
 Base(id, mn, args, flds, enc, flow, tf) ==
   [id |-> id, mn |-> mn, cpus |-> All, args |-> args, flds |-> flds, enc |-> enc, flow |-> flow, tf |-> tf,
@@ -37,7 +51,11 @@ ByteOp(mn, oooo) == Base(mn, mn, <<Op(1), Op(2)>>, <<FReg, Dest>>, <<U(oooo * 25
 FileOp(mn, code) == Base(mn, mn, <<Op(1)>>, <<FReg>>, <<U(code, <<P(1, 0, 7, 0)>>)>>, "next", 0)
 BitOp(mn, oo)    == Base(mn, mn, <<Op(1), Op(2)>>, <<FReg, BitNo>>, <<U(4096 + oo * 1024, <<P(1, 0, 7, 0), P(2, 0, 3, 7)>>)>>, "next", 0)
 LitOp(mn, code, flow) == Base(mn, mn, <<Op(1)>>, <<Lit8>>, <<U(code, <<P(1, 0, 8, 0)>>)>>, flow, 0)
-Jump(mn, code, flow)  == Base(mn, mn, <<Op(1)>>, <<Prog>>, <<U(code, <<P(1, 0, 11, 0)>>)>>, flow, 1)
+\* one form per range of the address operand: the 16C84 (ids "CALL", "GOTO"), the 16C64, page 0 of the paged devices
+Jump(mn, code, flow)  ==
+  { [Base(mn, mn, <<Op(1)>>, <<Prog("16C84")>>, <<U(code, <<P(1, 0, 11, 0)>>)>>, flow, 1) EXCEPT !.cpus = {"16C84"}],
+    [Base(mn \o " 2K", mn, <<Op(1)>>, <<Prog("16C64")>>, <<U(code, <<P(1, 0, 11, 0)>>)>>, flow, 1) EXCEPT !.cpus = {"16C64"}],
+    [Base(mn \o " p0", mn, <<Op(1)>>, <<Prog("16C877")>>, <<U(code, <<P(1, 0, 11, 0)>>)>>, flow, 1) EXCEPT !.cpus = Paged] }
 
 Forms ==
   { ByteOp("ADDWF", 7), ByteOp("ANDWF", 5), ByteOp("COMF", 9), ByteOp("DECF", 3), ByteOp("DECFSZ", 11),
@@ -49,12 +67,13 @@ Forms ==
     BitOp("BCF", 0), BitOp("BSF", 1), BitOp("BTFSC", 2), BitOp("BTFSS", 3),
     LitOp("ADDLW", 15872, "next"), LitOp("ANDLW", 14592, "next"), LitOp("IORLW", 14336, "next"),
     LitOp("MOVLW", 12288, "next"), LitOp("RETLW", 13312, "ret"), LitOp("SUBLW", 15360, "next"),
-    LitOp("XORLW", 14848, "next"),
-    Jump("CALL", 8192, "call"), Jump("GOTO", 10240, "jump") }
+    LitOp("XORLW", 14848, "next") }
+  \cup Jump("CALL", 8192, "call") \cup Jump("GOTO", 10240, "jump")
 
 After(cpu, prev, form, units) == units
-Skipped(cpu, form, ops) == FALSE
+\* paged devices: a target outside page 0 that the PCLATH page bits can select is reached with a prefix (IsaPic16P)
+Skipped(cpu, form, ops) == cpu \in Paged /\ form.tf = 1 /\ ops[1] >= PageSize /\ ops[1] < 4 * PageSize
 Unjudged(cpu, form, ops) == FALSE
-\* canonical words only (don't-care bits 0), CALL/GOTO with targets inside the 1 K device
-DefinedCount(cpu) == 14 * 256 + 2 * 128 + 6 + 4 * 1024 + 7 * 256 + 2 * 1024
+\* canonical words only (don't-care bits 0), CALL/GOTO with k inside the device (1 K) / inside the page
+DefinedCount(cpu) == 14 * 256 + 2 * 128 + 6 + 4 * 1024 + 7 * 256 + 2 * (IF cpu = "16C84" THEN 1024 ELSE PageSize)
 =============================================================================
